@@ -257,7 +257,7 @@ type dexMode struct {
 	flood    bool // one burst of more than MaxOrdersSettledPerBlock orders
 }
 
-func runDexCase(t *rapid.T, ec *ev.Case, mode dexMode) (nontrivial bool) {
+func runDexCase(t *rapid.T, rec *ev.Rec, ec *ev.Case, mode dexMode) (nontrivial bool, stats dexStats) {
 	rootPool := dexReserves[rapid.IntRange(0, len(dexReserves)-1).Draw(t, "rootReserve")]
 	nestedPool := dexReserves[rapid.IntRange(0, len(dexReserves)-1).Draw(t, "nestedReserve")]
 	ptsMode := rapid.IntRange(0, 2).Draw(t, "points")
@@ -275,16 +275,44 @@ func runDexCase(t *rapid.T, ec *ev.Case, mode dexMode) (nontrivial bool) {
 	steps := rapid.IntRange(10, 24).Draw(t, "steps")
 	silentFrom, silentTo := -1, -1
 	if mode.liveness {
-		steps = rapid.IntRange(22, 30).Draw(t, "stepsL")
-		silentFrom = rapid.IntRange(2, 6).Draw(t, "silentFrom")
-		silentTo = silentFrom + rapid.IntRange(11, 16).Draw(t, "silentLen")
+		silentFrom = rapid.IntRange(3, 6).Draw(t, "silentFrom")
+		silentTo = silentFrom + rapid.IntRange(11, 14).Draw(t, "silentLen")
+		steps = silentTo + rapid.IntRange(3, 6).Draw(t, "tail")
 	}
 	dropped, delayed := 0, 0
-	for step := 0; step < steps; step++ {
+	stop := false
+	floodStep, floodRoot := -1, false
+	if mode.flood {
+		floodStep, floodRoot = rapid.IntRange(1, 4).Draw(t, "floodStep"), rapid.Bool().Draw(t, "floodRoot")
+		steps = floodStep + rapid.IntRange(5, 8).Draw(t, "floodTail")
+	}
+	flood := func(s dexSide, own, other uint64) (txs []*dexTx) {
+		n := lib.MaxOrdersSettledPerBlock + rapid.IntRange(1, 12).Draw(t, "floodExtra")
+		for i := 0; i < n; i++ {
+			x := &dexTx{kind: "order", user: i % dexUsers, amount: uint64(1000 + i), request: 1}
+			if i%7 == 3 {
+				x.request = ^uint64(0) >> 1 // some fail on price
+			}
+			raw, _, err := s.c.SignTx(dexUser(x.user), &fsm.MessageDexLimitOrder{ChainId: s.counter, AmountForSale: x.amount, RequestedAmount: x.request, Address: chainsim.Addr(dexUser(x.user))}, 0, s.c.Height(), "")
+			if err != nil {
+				t.Fatalf("sign: %v", err)
+			}
+			x.raw, x.id = raw, crypto.Hash(raw)[:20]
+			txs = append(txs, x)
+		}
+		return
+	}
+	for step := 0; step < steps && !stop; step++ {
 		rootFirst := rapid.IntRange(0, 3).Draw(t, "rootFirst") == 0
 		doNested := rapid.IntRange(0, 9).Draw(t, "nestedBlock") < 9
 		doRoot := rapid.IntRange(0, 9).Draw(t, "rootBlock") < 9
 		silent := step >= silentFrom && step < silentTo
+		if silent && ev.Open(kfLiveness) && answeredRootBatchHasOps(t, tc) {
+			// open finding: a liveness fallback while the root's locked batch still holds operations that our locked batch has
+			// already answered executes them a second time. Excluded by construction: the root resumes before the fallback.
+			silent = false
+			rec.Exclude(kfLiveness)
+		}
 		nestedStep := func() {
 			if !doNested {
 				return
@@ -295,6 +323,14 @@ func runDexCase(t *rapid.T, ec *ev.Case, mode dexMode) (nontrivial bool) {
 			if err != nil {
 				t.Fatalf("scan: %v", err)
 			}
+			if lb := pre.Locked[dexRoot]; ev.Open(kfLiveness) && !batchEmpty(lb) && h-lb.LockedHeight >= lib.LivenessFallbackBlocks &&
+				(h-lb.LockedHeight)%lib.TriggerModuloBlocks == 0 && answeredRootBatchHasOps(t, tc) {
+				// open finding (see above): this block would order the harmful fallback; the history ends here
+				rec.Exclude(kfLiveness)
+				ec.Class("history-cut-before-known-finding")
+				stop = true
+				return
+			}
 			rpre, _ := tc.Root.Raw()
 			var txs []*dexTx
 			var raws [][]byte
@@ -302,6 +338,12 @@ func runDexCase(t *rapid.T, ec *ev.Case, mode dexMode) (nontrivial bool) {
 			for i, n := 0, rapid.IntRange(0, 2).Draw(t, "nTxN"); i < n; i++ {
 				x := genTx(t, nestS, pre.PoolAmount(dexRoot+fsm.LiquidityPoolAddend), rpre.PoolAmount(dexNested+fsm.LiquidityPoolAddend))
 				txs, raws, ds = append(txs, x), append(raws, x.raw), append(ds, x.desc)
+			}
+			if step == floodStep && !floodRoot {
+				for _, x := range flood(nestS, 0, 0) {
+					txs, raws = append(txs, x), append(raws, x.raw)
+				}
+				ds = append(ds, fmt.Sprintf("flood of %d orders", len(txs)))
 			}
 			rc := tc.Root.Height() - uint64(rapid.IntRange(0, 1).Draw(t, "rcLag"))
 			if rc == 0 {
@@ -364,9 +406,19 @@ func runDexCase(t *rapid.T, ec *ev.Case, mode dexMode) (nontrivial bool) {
 			var txs []*dexTx
 			var raws [][]byte
 			var ds []string
-			for i, n := 0, rapid.IntRange(0, 2).Draw(t, "nTxR"); i < n; i++ {
+			nTxR := rapid.IntRange(0, 2).Draw(t, "nTxR")
+			if mode.liveness && ev.Open(kfLiveness) && step >= silentFrom-3 && step < silentTo {
+				nTxR = 0 // open finding: keep the root's locked batch free of operations around the silent window (see kfLiveness)
+			}
+			for i, n := 0, nTxR; i < n; i++ {
 				x := genTx(t, rootS, pre.PoolAmount(dexNested+fsm.LiquidityPoolAddend), npre.PoolAmount(dexRoot+fsm.LiquidityPoolAddend))
 				txs, raws, ds = append(txs, x), append(raws, x.raw), append(ds, x.desc)
+			}
+			if step == floodStep && floodRoot {
+				for _, x := range flood(rootS, 0, 0) {
+					txs, raws = append(txs, x), append(raws, x.raw)
+				}
+				ds = append(ds, fmt.Sprintf("flood of %d orders", len(txs)))
 			}
 			// which pending certificates get in: at most one that carries a DEX batch per root block
 			var include, keep []*pendingCert
@@ -459,7 +511,30 @@ func runDexCase(t *rapid.T, ec *ev.Case, mode dexMode) (nontrivial bool) {
 	ec.ClassIf(st.swapsCapped > 0, "orders-beyond-settlement-cap>=1")
 	ec.ClassIf(st.fallbacks > 0, "fallbacks>=1")
 	ec.Desc("=> round trips n=%d r=%d swaps ok=%d failed=%d withdrawals=%d deposits=%d", st.rotations[dexNested], st.rotations[dexRoot], st.swapsOK, st.swapsFailed, st.withdrawals, st.deposits)
-	return st.rotations[dexNested]+st.rotations[dexRoot] >= 2 && st.swapsOK > 0 && st.swapsFailed > 0 && st.withdrawals > 0
+	return st.rotations[dexNested]+st.rotations[dexRoot] >= 2 && st.swapsOK > 0 && st.swapsFailed > 0 && st.withdrawals > 0, st
+}
+
+const kfLiveness = "KF-C20-liveness-reexecution"
+
+// answeredRootBatchHasOps: the root's locked batch carries operations and the nested chain's locked batch is the answer to it.
+func answeredRootBatchHasOps(t *rapid.T, tc *chainsim.TwoChain) bool {
+	rr, err := tc.Root.Raw()
+	if err != nil {
+		t.Fatalf("scan: %v", err)
+	}
+	nr, err := tc.Nested.Raw()
+	if err != nil {
+		t.Fatalf("scan: %v", err)
+	}
+	rb, nb := rr.Locked[dexNested], nr.Locked[dexRoot]
+	if batchEmpty(rb) || len(rb.Orders)+len(rb.Withdrawals)+len(rb.Deposits) == 0 {
+		return false
+	}
+	full, err := tc.RootDexBatchAt(tc.Root.Height(), false)
+	if err != nil {
+		t.Fatalf("root batch: %v", err)
+	}
+	return batchEmpty(nb) || string(nb.ReceiptHash) == string(batchHash(full))
 }
 
 func lastBlockHash(t *rapid.T, c *chainsim.Chain) []byte {
@@ -502,7 +577,8 @@ func TestC20Dex(t *testing.T) {
 	rec := ev.New(t, "C20")
 	rapid.Check(t, func(t *rapid.T) {
 		ec := rec.Case()
-		ec.Done(runDexCase(t, ec, dexMode{}))
+		nt, _ := runDexCase(t, rec, ec, dexMode{})
+		ec.Done(nt)
 	})
 }
 
@@ -516,10 +592,18 @@ func TestC20DexLiveness(t *testing.T) {
 	defer func() { lib.LivenessFallbackBlocks = old }()
 	rapid.Check(t, func(t *rapid.T) {
 		ec := rec.Case()
-		nt := runDexCase(t, ec, dexMode{liveness: true})
-		_ = nt
-		ec.Done(ecHas(ec, "liveness-fallback-executed"))
+		_, st := runDexCase(t, rec, ec, dexMode{liveness: true})
+		ec.Done(st.fallbacks > 0)
 	})
 }
 
-func ecHas(ec *ev.Case, frag string) bool { return strings.Contains(ec.Descriptor(), frag) }
+// TestC20DexFlood: a burst of more than lib.MaxOrdersSettledPerBlock limit orders in one block of one chain: the counter chain
+// settles at most the cap per block, the rest keep a zero receipt and must be refunded in full on the origin chain.
+func TestC20DexFlood(t *testing.T) {
+	rec := ev.New(t, "C20")
+	rapid.Check(t, func(t *rapid.T) {
+		ec := rec.Case()
+		_, st := runDexCase(t, rec, ec, dexMode{flood: true})
+		ec.Done(st.swapsCapped > 0)
+	})
+}
